@@ -37,32 +37,22 @@ Theorem C20_idempotent_refuted : ~ C20_idempotent_full_statement.
 Proof. exact idem_refuted. Qed.
 Print Assumptions C20_idempotent_refuted.
 
+(* ... but it holds for every type whose only unions are Optional[...] (a two-armed union with None) *)
 Theorem C20_idempotent_union_free :
   forall (W : world) (sac : bool) (t : ty), union_free t = true ->
     forall v v', coerce live W sac t v = Ok v' -> coerce live W sac t v' = Ok v'.
 Proof. exact live_idem. Qed.
 Print Assumptions C20_idempotent_union_free.
 
-(* strings are never split into collections nor collections joined into strings — false on the pinned tree *)
+(* strings are never split into collections nor collections joined into strings: the stored value is related
+   to the input by [nss no_pairs] (no tolerated conversion). Needs [tables_nss no_pairs live], recomputed on the live
+   tables on every run.  (Before the repair of finding F20 this was refuted by 'abc' -> set[str] etc.) *)
 Definition C20_full_statement : Prop :=
   forall (W : world) (sac : bool) (t : ty) (v v' : val),
     scalar_based t = true -> coerce live W sac t v = Ok v' -> nss no_pairs v v' = true.
-Theorem C20_refuted_str_to_set : ~ C20_full_statement.
-Proof. exact nss_refuted_str_to_set. Qed.
-Print Assumptions C20_refuted_str_to_set.
-Theorem C20_refuted_set_to_str : ~ C20_full_statement.
-Proof. exact nss_refuted_set_to_str. Qed.
-Print Assumptions C20_refuted_set_to_str.
-Theorem C20_refuted_bytes_to_list : ~ C20_full_statement.
-Proof. exact nss_refuted_bytes_to_list. Qed.
-Print Assumptions C20_refuted_bytes_to_list.
-
-(* ... and those class pairs (f20_pairs) are the only such conversions *)
-Theorem C20_partial :
-  forall (W : world) (sac : bool) (t : ty), scalar_based t = true ->
-    forall v v', coerce live W sac t v = Ok v' -> nss f20_pairs v v' = true.
-Proof. exact live_nss_partial. Qed.
-Print Assumptions C20_partial.
+Theorem C20_full : C20_full_statement.
+Proof. intros W sac t v v' Ht. exact (live_nss_full W sac t Ht v v'). Qed.
+Print Assumptions C20_full.
 
 (* the executable spec evaluated on the correspondence cases decides [conforms] *)
 Theorem C20_spec_decides : forall (t : ty) (v : val), conformsb live t v = true <-> conforms live t v.
